@@ -585,10 +585,10 @@ def r20(rr, repo):
     from ..peval import PEval, Lit, Lst, Undecided, Raised
     FIL = 'openfilter/filter_runtime/filter.py'
     mod, pt = repo.find(f'{FIL}::Filter.parse_topics')
-    branch = [n for n in walk_scope(pt) if isinstance(n, ast.If) and U(n.test) == 'mapping']
+    branch = [n for n in walk_scope(pt) if isinstance(n, ast.If) and U(n.test) in ('mapping', 'not mapping')]
     if len(branch) != 1:
         raise Unresolved(f'{FIL}: parse_topics has no single `if mapping:` branch')
-    stmts = [st for st in branch[0].body if not (isinstance(st, ast.If) and any(isinstance(x, ast.Raise) for x in ast.walk(st)))]       # the pair building, without the uniqueness check that follows it
+    stmts = [st for st in (branch[0].body if U(branch[0].test) == 'mapping' else branch[0].orelse) if not (isinstance(st, ast.If) and any(isinstance(x, ast.Raise) for x in ast.walk(st)))]       # the pair building, without the uniqueness check that follows it
     var = 'topics'
     cases = [('a', ('a', 'a')), ('a>b', ('a', 'b')), ('>b', ('main', 'b')), ('that>', ('that', 'main')), ('', ('main', 'main')), ('>', ('main', 'main')), (' a > b ', ('a', 'b')), ('main>x', ('main', 'x'))]
     for text, want in cases:
